@@ -42,3 +42,9 @@ Definition check_seg (s : seg) : bool :=
   let '(n0, f0, q0, blk, reps) := s in
   match blk with nil => false | _ => run_reps (N.to_nat reps) n0 f0 q0 blk end.
 Definition seg_mismatches := mismatches_with check_seg.
+
+(* threshold use: a certificate signed by exactly k distinct members of n is accepted iff k >= q n *)
+Definition thr_case := (Z * Z * bool)%type.
+Definition check_thr (c : thr_case) : bool :=
+  let '(n, k, accepted) := c in Bool.eqb accepted (quorum_size n <=? k).
+Definition thr_mismatches := mismatches_with check_thr.
